@@ -125,6 +125,54 @@ class ODEs:
         return err
 
 
+def peri_bodies(e, m):
+    """star + a planet on an orbit of eccentricity e that passes its pericentre within the horizon + an outer planet"""
+    G = 1.0
+    pl = [(m, 1.0, e, 0.05, 0.3, 0.2, 0.9 * math.pi), (m / 10, 3.7, 0.1, 0.02, 1.0, 0.5, 2.0)]
+    bodies = [[1.0, 0, 0, 0, 0, 0, 0]]
+    for (mm, a, ee, inc, Om, om, f) in pl:
+        x, y, z, vx, vy, vz = lattice.kep2cart(G * (1.0 + mm), a, ee, inc, Om, om, f)
+        bodies.append([mm, x, y, z, vx, vy, vz])
+    M = sum(b[0] for b in bodies)
+    for k in range(1, 7):
+        c = sum(b[0] * b[k] for b in bodies) / M
+        for b in bodies:
+            b[k] -= c
+    return G, bodies, 2 * math.pi * math.sqrt(1.0 / (G * (1 + m)))
+
+
+class TracePeri:
+    """TRACE through a pericentre passage that its switching condition hands to BS / IAS15, each of its three prescriptions"""
+    def __init__(self, rebound, refs):
+        self.rebound = rebound
+        self.refs = refs
+
+    def __call__(self, task):
+        e, m, sgn, mode, n = task
+        rb.quiet()
+        rebound = self.rebound
+        G, bodies, P = peri_bodies(e, m)
+        T = sgn * P
+        sim = rebound.Simulation()
+        sim.G = G
+        for b in bodies:
+            sim.add(m=b[0], x=b[1], y=b[2], z=b[3], vx=b[4], vy=b[5], vz=b[6])
+        sim.integrator = "trace"
+        sim.ri_trace.peri_mode = mode
+        sim.dt = T / n
+        sim.steps(n)
+        sim.synchronize()
+        ref = self.refs[(e, m, sgn)]
+        scale = max(abs(v) for r in ref for v in r)
+        err = 0.0
+        for i in range(sim.N):
+            q = sim.particles[i]
+            for k, v in enumerate((q.x, q.y, q.z)):
+                d = abs(v - ref[i][k])
+                err = max(err, d if d == d else float("inf"))
+        return err / scale, sim.t - T
+
+
 def run(ctx):
     rebound = ctx.use("rel")
     # references (pure mathematics: computed once per run)
@@ -254,12 +302,48 @@ def run(ctx):
         a, bb = ode_err.get(("bs", kind, 1e-8)), ode_err.get(("bs", kind, 1e-11))
         if a is not None and bb is not None and a > 1e-11 and bb > a * 0.5 and bb > 1e-10:
             ctx.violation("ode-tolerance-scaling:%s" % kind, "user ODE '%s' under BS: error %.3g at eps 1e-8 and %.3g at eps 1e-11 (does not shrink with the tolerance)" % (kind, a, bb), {"ode": ["bs", kind]})
+    # TRACE pericentre prescriptions
+    prefs = {}
+    PERI_E, PERI_M = (0.9, 0.99), (1e-3, 1e-5, 1e-12)
+    for e in PERI_E:
+        for m in PERI_M:
+            for sgn in (1, -1):
+                G, bodies, P = peri_bodies(e, m)
+                y = refmath.nbody_reference(G, bodies, sgn * P)
+                prefs[(e, m, sgn)] = [[float(y[3 * i + c]) for c in range(3)] for i in range(len(bodies))]
+    PERI_MODES = ("PARTIAL_BS", "FULL_BS", "FULL_IAS15")
+    pt = [(e, m, sgn, mode, n) for e in PERI_E for m in PERI_M for sgn in (1, -1) for mode in PERI_MODES for n in (40, 80, 160)]
+    pres = pool.run_tasks(TracePeri(rebound, prefs), pt, timeout=120, chunk=2)
+    perr = {}
+    for t, r in zip(pt, pres):
+        e, m, sgn, mode, n = t
+        lab = "TRACE peri_mode=%s, inner planet e=%g m=%g, %d steps over one period %s" % (mode, e, m, n, "forward" if sgn > 0 else "backward")
+        d = "forward" if sgn > 0 else "backward"
+        if r[0] != "ok":
+            ctx.violation("trace-peri:%s:%s:%s" % (r[0], mode, d), "%s: %s: %s" % (lab, r[0], str(r[1])[-300:]), {"peri": list(t)})
+            continue
+        err, dtm = r[1]
+        perr[t] = err
+        if abs(dtm) > 1e-9:
+            ctx.violation("trace-peri:time:%s:%s" % (mode, d), "%s: ended %.3g away from the requested time" % (lab, dtm), {"peri": list(t)})
+        # Wisdom-Holman class: the error is proportional to the planets' masses; whatever the prescription, the pericentre itself is
+        # integrated by BS (eps 1e-8) or IAS15, so the result must be in BS's accuracy class relative to that
+        bound = 3e3 * 1e-8 + 30 * m
+        if not err <= bound:
+            ctx.violation("trace-peri:accuracy:%s:%s" % (mode, d), "%s: error %.3g of the system size against the longdouble reference, allowed %.3g (BS class 3e-5 + 30 x planet mass)" % (lab, err, bound), {"peri": list(t)})
+    nperi = len(pt)
+    for (e, m, sgn, mode, n), err in perr.items():
+        # the three prescriptions advertise the same accuracy: none may be an order of magnitude worse than the best of them
+        best = min(perr.get((e, m, sgn, mo, n), float("inf")) for mo in PERI_MODES)
+        if err > 10 * best + 3e-7:      # 30 x the BS tolerance: BS-based prescriptions are not held to IAS15's accuracy
+            ctx.violation("trace-peri:relation:%s:%s" % (mode, "forward" if sgn > 0 else "backward"),
+                          "TRACE peri_mode=%s, inner planet e=%g m=%g, %d steps %s: error %.3g, but %.3g with another pericentre prescription" % (mode, e, m, n, "forward" if sgn > 0 else "backward", err, best), {"peri": [e, m, sgn, mode, n]})
     # WHFast512 exists only in the AVX512 build: its part runs in a process of its own (mc/w512.py)
     from .. import w512
     n_w512 = w512.run(ctx, "C01")
     cov = {
         "whfast512_cases": n_w512,
-        "evaluations": len(cfgs) * 3 + len(ot), "distinct_nontrivial": ntested + nrel + len(ot),
+        "evaluations": len(cfgs) * 3 + len(ot) + nperi, "distinct_nontrivial": ntested + nrel + len(ot) + nperi, "trace_pericentre_cases": nperi,
         "rule": "every point of the documented option lattice (%d integrator settings) x test-particle setting {all active, type 0, type 1} x direction (quick: 4 of the 6 combinations) x system, at h=P/20, P/40, P/80 over two inner periods; "
                 "non-trivial = order or accuracy-class tests actually applied (error above the floor) + differential relations + user-ODE cases" % len(pts),
         "samples": [cfgs[0], cfgs[-1]], "order_or_class_tests": ntested, "relations_checked": nrel, "ode_cases": len(ot), "reference_selftest_error": st, "exhaustive": True,
